@@ -18,8 +18,14 @@ CLAIMED = {
              technique="deterministic simulation: same input under K seeded schedules/configurations, snapshot-equality oracle", ref="§8 C08, §7.6"),
  "C09": dict(note="2-3 concurrent analyze_file/analyze_file_fresh on distinct files sharing names, op-level interleavings (random walk + PCT, 1/2/4 shards); oracle: index equals some sequential execution as multisets, reverse indices mirror forward ones.",
              technique="deterministic simulation: seeded schedule search over DashMap lock points, sequential-outcome oracle", ref="§8 C09, §7.5"),
+ "C10": dict(note="Full stack: the real initialize starts the scan (tokio facade -> simulated thread, 1-4 shim workers); didOpen/didChange(F, buffer != disk) is sent after a generated number of scheduler steps so that it lands before, inside or after the worker's read/analyse of F; per-file records compared with a single analysis of the buffer; one further didChange must restore exactly (clause 2 checked strictly).",
+             technique="deterministic simulation: scan thread vs notification interleavings over the real Server::serve, single-analysis oracle", ref="§8 C10"),
+ "C11": dict(note="Library + every real handler at every recorded span boundary and hostile position after valid -> unparsable multi-byte edits (stale spans); full stack with malformed/unreadable/non-UTF-8/symlink-loop files and broken plugin metadata during the scan, frame fragmentation/coalescing, $/cancelRequest, late/erroring refresh answers, EOF mid-frame; invariants: no panic, exactly one response per request id, probe answered after the last fault, scan completes and indexes well-formed files.",
+             technique="deterministic simulation with fault injection (transport, filesystem adversary, stale-span histories): crash/wedge invariants", ref="§8 C11, §6.3"),
  "C14": dict(note="Generated import graphs (star/explicit/pytest_plugins, relative/absolute, transitive, cycles, 3-module rings, last-assignment-wins) and synthetic venvs (dist-info/egg-info entry points, module vs package targets, _pytest, in-workspace editable installs, .pth naming variants); visible names, origins and third-party/plugin classification compared with the reachability model and across two sigmas; third-party never among symbols.",
              technique="deterministic simulation: seeded scans (hash seed, readdir order, schedule), reachability-model oracle", ref="§8 C14, §7.1"),
+ "C19": dict(note="Full stack after scan completion: generated open/change histories over documents and conftests with pyproject.toml variants (valid subsets, unknown codes, invalid globs, malformed TOML, absent), fragmented transport, late/erroring refresh answers; at quiescence the last publishDiagnostics for the changed uri equals the library's findings on a fresh twin minus validly disabled codes; exactly one publish per notification; server keeps serving.",
+             technique="deterministic simulation: client actor over simulated transport, fresh-twin diagnostics oracle", ref="§8 C19"),
  "C16": dict(note="Generated dependency graphs (rings, self-loops with/without parent, overridden names, unknown deps) x scope assignments; reported cycles must be closed chains in the reference graph over resolved definitions, every cyclic SCC reported, override pattern never a cycle, scope mismatch iff resolved dependency is narrower; stability across sigma is checked by C08's snapshot.",
              technique="deterministic simulation: seeded scans, reference dependency-graph oracle", ref="§8 C16, §7.1"),
 }
